@@ -241,6 +241,9 @@ struct ApGen {
     }
     std::string wrong_for(int type) { if (type == T_INT) return s.boolean() ? "1.5" : "12x"; if (type == T_FLOAT) return s.boolean() ? "1.2.3" : "abc"; return s.boolean() ? "maybe" : "2"; }
 
+    // registered spelling of a (possibly case-randomised) section name
+    std::string opts_name_of(const std::string &n) { for (auto &o : opts) if (strcasecmp(o.name.c_str(), n.c_str()) == 0) return o.name; return n; }
+
     void gen_block(const Scope &sc, int depth, int budget) {
         int n = (int)s.range(0, budget);
         for (int i = 0; i < n && !stop && !s.exhausted(); i++) {
@@ -261,6 +264,14 @@ struct ApGen {
                 if (defh) { Rec r; r.otype = QAC_OTYPE_OPTION; r.section = sc.section; r.sections = sc.sections; r.level = sc.level; r.argv.push_back(nm); for (auto &a : norm) r.argv.push_back(a); r.parents = sc.parents; expect.push_back(r); }
                 expect_count++;
                 continue;
+            }
+            if (do_inject && inject == 11) {
+                // a close tag where no such section is open: at the root, or naming another section / an unknown name inside one
+                std::vector<std::string> names;
+                for (auto &o : opts) if (o.is_section && (sc.parents.empty() || o.name != opts_name_of(sc.parents[0]))) names.push_back(o.name);
+                names.push_back("Unk" + ident(s, 3));
+                emit_line("</" + names[(size_t)s.range(0, (long)names.size() - 1)] + ">", sc.level);
+                injected = true; error_line = lineno; stop = true; return;
             }
             size_t oi = cand[s.range(0, (long)cand.size() - 1)];
             if (do_inject && inject == 3) {
@@ -292,10 +303,16 @@ struct ApGen {
                 nested++;
                 gen_block(in, depth + 1, budget > 2 ? budget - 2 : 1);
                 if (stop) return;
-                bool do_inj2 = inject != 0 && !injected && ordinal >= inject_at && (inject == 5 || inject == 8);
+                bool do_inj2 = inject != 0 && !injected && ordinal >= inject_at && (inject == 5 || inject == 8 || inject == 10);
                 if (do_inj2 && inject == 5) { injected = true; stop = true; error_line = -1; return; }          // section never closed: error at end of file
                 std::string cn = randcase(o.name);
+                if (do_inj2 && inject == 10 && (flags & QAC_CASEINSENSITIVE)) inject = 8;
                 if (do_inj2 && inject == 8) { emit_line("</" + cn + "x>", sc.level); injected = true; error_line = lineno; stop = true; return; }
+                if (do_inj2 && inject == 10) {
+                    // close tag that differs from the open tag in letter case only, parser case-sensitive
+                    size_t k = (size_t)s.range(0, (long)cn.size() - 1); cn[k] = (char)(isupper((unsigned char)cn[k]) ? tolower(cn[k]) : toupper(cn[k]));
+                    emit_line("</" + cn + ">", sc.level); injected = true; error_line = lineno; stop = true; return;
+                }
                 emit_line("</" + cn + ">", sc.level);
                 Rec rc = r; rc.otype = QAC_OTYPE_SECTIONCLOSE; expect.push_back(rc); expect_count++;
             } else {
@@ -323,7 +340,7 @@ void check_apache(Src &s, Ctx &c) {
     ApGen g(s, c);
     g.make_table();
     bool invalid = s.chance(2, 5);
-    if (invalid) { g.inject = (int)s.range(1, 9); g.inject_at = (int)s.range(0, 6); }
+    if (invalid) { g.inject = (int)s.range(1, 11); g.inject_at = (int)s.range(0, 6); }
     ApGen::Scope root; root.section = QAC_SECTION_ROOT; root.sections = QAC_SECTION_ROOT; root.level = 0;
     g_cb_error_armed = false;
     g.gen_block(root, 0, c.tier ? 14 : 8);
